@@ -58,6 +58,43 @@ class Monitor(Observer):
         self.ctx = ctx
         self.p = p_twin
 
+    def frame_oracle(self, bt, spec, root, step, i):
+        """independent oracle for the two assembled frames (`positions`, `outlays` of a strategy): one column per security name
+        below the node (first-seen order), the sum of the same-named securities' own recorded series up to now - whatever was
+        read or cached before"""
+        ctx = self.ctx
+        try:
+            c1 = copy.deepcopy(root)
+            nodes = [m for m in c1.members if isinstance(m, bt.core.StrategyBase)]
+            nd = ctx.rng.choice(nodes)
+            attr = ctx.rng.choice(["positions", "positions", "outlays"])
+            v1 = getattr(nd, attr)
+        except Exception as e:  # noqa
+            ctx.count("frame-oracle-raised:" + E.classify_exc(e))
+            return
+        exp = {}
+        for x in nd.members:
+            if isinstance(x, bt.core.SecurityBase):
+                if isinstance(x.now, int) and x.now == 0:
+                    ser = np.zeros(0)
+                else:
+                    ser = np.asarray((x._positions if attr == "positions" else x._outlays).loc[: x.now].values, dtype=float)
+                exp[x.name] = exp[x.name] + ser if (x.name in exp and len(exp[x.name]) == len(ser)) else ser
+        got = {str(c): np.asarray(v1[c].values, dtype=float) for c in getattr(v1, "columns", [])}
+        ctx.count("assembled-frame-oracle:" + attr)
+        badc = None
+        if list(got) != list(exp):
+            badc = "columns %r, expected %r" % (list(got), list(exp))
+        else:
+            for cname in exp:
+                a, b = got[cname], exp[cname]
+                if len(a) != len(b) or any(E.f2b(x) != E.f2b(y) and not (x == y) and not (x != x and y != y) for x, y in zip(a, b)):
+                    badc = "column %s is %r, the securities' own series give %r" % (cname, list(a[-4:]), list(b[-4:]))
+                    break
+        if badc:
+            ctx.violation("C08/stale-read:" + attr + ":assembled-frame", "after op %d %s: %s.%s does not show the current histories: %s"
+                          % (i, step["op"]["op"], nd.full_name, attr, badc), {"spec": spec, "upto": i})
+
     def after(self, bt, spec, root, dates, step, i):
         ctx = self.ctx
         post = step["post"]
@@ -70,6 +107,8 @@ class Monitor(Observer):
         if bad:
             ctx.violation("C08/past-row-changed", "op %d %s rewrote a row of an earlier date: %s" % (i, step["op"]["op"], bad[0]),
                           {"spec": spec, "upto": i})
+        if not step["pending"] and ctx.rng.random() < max(self.p, 0.5):
+            self.frame_oracle(bt, spec, root, step, i)
         if ctx.rng.random() > self.p:
             return
         # (a) idempotence of update on a deep copy
@@ -132,7 +171,35 @@ def corpus():
     return [json.load(open(f))["spec"] for f in sorted(glob.glob(os.path.join(here, "corpus", "C08_*.json")))]
 
 
+def cached_reads(rng, spec):
+    """a ticker held under two sub-strategies (and one held directly); on every date: update, read an assembled frame while the tree
+    is up to date, trade with update=False, explicit update, observe"""
+    from .. import gen_engine as G
+    spec["tree"] = {"name": "root", "fi": False, "algos": False, "kids": [
+        {"name": "s00", "fi": False, "algos": False, "kids": [{"sec": "a", "kind": 0, "mult": 1.0, "cfi": True}, {"sec": "b", "kind": 0, "mult": 1.0, "cfi": True}]},
+        {"name": "s01", "fi": False, "algos": False, "kids": [{"sec": "a", "kind": 0, "mult": rng.choice([1.0, 10.0]), "cfi": True}, {"sec": "c", "kind": 0, "mult": 1.0, "cfi": True}]},
+        {"sec": "d", "kind": 0, "mult": 1.0, "cfi": True}]}
+    for k in ("coupons", "cost_long", "cost_short"):
+        spec[k] = None
+    T = spec["T"]
+    for t, col in spec["prices"].items():
+        spec["prices"][t] = [(10.0 + j) if (x is None or x == 0.0) else x for j, x in enumerate(col)]
+    ops = [{"op": "adjust", "path": [], "amount": spec["capital"], "update": True, "flow": True}, {"op": "update", "d": 0},
+           {"op": "allocate", "path": [0], "amount": spec["capital"] / 4, "update": True}, {"op": "allocate", "path": [1], "amount": spec["capital"] / 4, "update": True}]
+    secs = [[0, 0], [0, 1], [1, 0], [1, 1], [2]]
+    for d in range(0, T):
+        ops.append({"op": "update", "d": d})
+        ops.append({"op": "read", "path": rng.choice([[], [0], [1]]), "g": 4, "attr": rng.choice(["positions", "outlays", "positions"])})
+        for _ in range(rng.randint(1, 3)):
+            ops.append({"op": "transact", "path": rng.choice(secs), "q": float(rng.randint(1, 9)), "update": False, "price": None})
+        ops.append({"op": "update", "d": d})
+        ops.append({"op": "observe", "on": "real"})
+    spec["ops"] = ops
+
+
 def run(ctx, bt):
+    run_engine_protocol(ctx, bt, ctx.scale(12, 150), [Monitor(ctx, 0.5)], None, None, spec_kwargs={"fi_tree": False},
+                        spec_mutator=cached_reads, corr_name="step[C08]:read-trade-silently-update-read")
     for sp in corpus():
         run_history_observed(bt, copy.deepcopy(sp), ctx.rng, len(sp["ops"]), [Monitor(ctx, 1.0)], ctx)
         ctx.evaluations += 1
